@@ -104,16 +104,20 @@ claimed = {
             '(any stack depth), try_first and every ending of try_seek are INTERVAL successor queries (the delivered entry is present '
             'at some moment of the step, every key in between is absent at some moment of it), an iterator run is a chain of them, '
             'and order / bounds / values / completeness for stable keys follow; a step is provably NOT an atomic successor query '
-            '(C09c_step_not_atomic), which corrected an earlier, too strong check. NOT a Coq theorem: that the C++ iterator\'s events '
+            '(C09c_step_not_atomic), which corrected an earlier, too strong check; the REVERSE direction (C09d_*: try_prior, try_last, reverse '
+            'try_seek are interval predecessor queries; scan_range\'s half-open interval) and a root that is a leaf or null, both '
+            'directions, are proved as well. NOT a Coq theorem: that the C++ iterator\'s events '
             'are such a run under every interleaving. That is decided on the implementation: every scan (scan, scan_from, '
             'scan_range, both directions, halting visitors) of every explored execution is validated step by step as an interval '
             'successor query against some linearization of the racing inserts / removes (witness checked by the verified validator); '
             'order, interval, value provenance and exactly-once delivery of untouched keys are checked again directly; iterator steps '
             'must use saved versions only for their own node (extracted acceptor).', '5 C09',
-            'Trusted: as C03; reverse scans by symmetry (not restated in Coq); the per-execution scan checker is Python (tools/p_olc.py).',
+            'Trusted: as C03; the per-execution scan checker is Python (tools/p_olc.py).',
             'Coq proof of the abstract re-seek scan + schedule exploration of the real iterator'),
     'C14': ('proof', 'PARTIAL proof, decided end to end by exploration. Proved in Coq: in every accepted trace at most one write guard per node, and a '
-            'thread holding any write guard takes no waiting step (so no wait-for cycle can contain a lock holder). NOT a Coq theorem: '
+            'thread holding any write guard takes no waiting step; C14c_*: every node whose word is write-locked at the end of an accepted '
+            'trace has exactly one holder, that thread is not in a waiting step, hence no accepted trace ends with every unfinished thread '
+            'spinning on a still-locked node (no wait cycle, for any number of threads and nodes). NOT a Coq theorem: '
             'termination of the restart loops under fair schedules. Decided on the implementation: the scheduler reports deadlock (all '
             'unfinished threads spinning) or an exceeded step budget for every explored schedule, and after every execution a '
             'single-threaded sweep (get of every key, insert+remove probes next to every key, full scan) must terminate; allocation-failure '
